@@ -32,8 +32,10 @@ def run_check(prop: str, tier: str, seed: int) -> int:
         repo = Repo()
         rep.analysed.update(repo.stats())
         mod.run(repo, rep, tier)
-        if tier == "thorough" and hasattr(mod, "sensitivity"):
-            mod.sensitivity(rep)
+        if tier == "thorough":
+            from .core import sensitivity
+
+            sensitivity.audit(prop, rep)
     except Undecided as e:
         rep.undecide("engine", str(e))
     except AnalysisError as e:
